@@ -4,9 +4,10 @@
 //! (RefImport, below) written from the property statement and doc/import.ja.md + the doc comments
 //! of cli/src/import/config.rs:
 //!
-//! * configuration space: 12 dimensions (field layout, delimiter, skipped head lines, date format,
-//!   amount | credit+debit, optional columns commodity / balance / note / charge, conversion
-//!   variant, account type, row order); ALL configurations with at most d non-default dimensions;
+//! * configuration space: 13 dimensions (field layout, delimiter, skipped head lines, date format,
+//!   amount | credit+debit, optional columns commodity / balance / note / charge, account-level
+//!   default conversion, account type, row order, rewrite-rule conversion); ALL configurations with
+//!   at most d non-default dimensions (so the full default x rule conversion matrix is in d = 2);
 //! * statement space: ALL sequences of at most n rows over a row alphabet that depends on the
 //!   configuration (credit, debit, zero, empty / wrong running balance, other-currency rows,
 //!   conversion rows with exact figures, rows with a charge) x ALL same-day / next-day patterns;
@@ -29,8 +30,8 @@ use crate::q::{qmap_add, qmap_clean, qmap_show, QMap, Q};
 pub const DEF: CheckDef = CheckDef {
     id: "C16",
     run,
-    technique: "deviation-bounded exhaustive enumeration of import configurations (all configurations with <= d non-default dimensions out of 12) x exhaustive enumeration of all statements of <= n rows over a configuration-dependent row alphabet x all same-day/next-day date patterns; each case is imported by the real code as a tree (import::import + Txn::to_double_entry) and as text (ImportCmd::run on real files), both compared posting by posting with a reference importer in exact rational arithmetic; for asset accounts with a running-balance column the printed text behind an opening transaction is run through report::process",
-    rule: "case = (configuration, statement). Configuration dimensions (default first): layout {index,label,template '{N}'} x delimiter {',',tab,';'} x skip.head {0,2} x date format {%Y/%m/%d,%Y-%m-%d,%d.%m.%Y} x value columns {amount, credit+debit} x commodity column {absent,present} x running-balance column {present,absent} x note column {absent,present} x charge column {absent,present} x conversion {none, columns price_of_secondary/extract, columns price_of_secondary/compute, columns price_of_primary/extract, columns price_of_primary/compute, rewrite-rule price_of_secondary/compute with fixed commodity, rewrite-rule price_of_primary/extract with fixed commodity, columns present but conversion disabled} x account type {asset, liability} x row_order {old_to_new,new_to_old}; ALL configurations with <= 2 (thorough <= 3) non-default dimensions. Statement: ALL sequences of <= 3 rows (thorough: <= 4 rows for configurations with <= 1 non-default dimension) over the alphabet {credit, debit, zero} + per present column {debit with empty balance cell, debit with a wrong balance; credit/debit in the other currency; credit/debit conversion rows; credit/debit with a charge; other-currency conversion debit; conversion debit with a charge} x EVERY assignment of same-day/next-day to rows 2..n; rows are written newest first when row_order=new_to_old. states = cases, transitions = transactions compared with RefImport (tree + text), validated = cases in which every judged value had exactly one acceptable answer",
+    technique: "deviation-bounded exhaustive enumeration of import configurations (all configurations with <= d non-default dimensions out of 13) x exhaustive enumeration of all statements of <= n rows over a configuration-dependent row alphabet x all same-day/next-day date patterns; each case is imported by the real code as a tree (import::import + Txn::to_double_entry) and as text (ImportCmd::run on real files), both compared posting by posting with a reference importer in exact rational arithmetic; for asset accounts with a running-balance column the printed text behind an opening transaction is run through report::process",
+    rule: "case = (configuration, statement). Configuration dimensions (default first): layout {index,label,template '{N}'} x delimiter {',',tab,';'} x skip.head {0,2} x date format {%Y/%m/%d,%Y-%m-%d,%d.%m.%Y} x value columns {amount, credit+debit} x commodity column {absent,present} x running-balance column {present,absent} x note column {absent,present} x charge column {absent,present} x account-level default conversion {none (no secondary_commodity column), rate/secondary_amount/secondary_commodity columns with no commodity.conversion (built-in price_of_secondary/extract), price_of_secondary/compute, price_of_primary/extract, price_of_primary/compute, disabled: true} x rewrite-rule conversion on payee ^xfer {no rule, price_of_secondary/compute, price_of_primary/extract, disabled: true; the rule names the commodity itself when there is no secondary_commodity column} x account type {asset, liability} x row_order {old_to_new,new_to_old} (row_order is dimension 11, the rule dimension 12); ALL configurations with <= 2 (thorough <= 3) non-default dimensions. Statement: ALL sequences of <= 3 rows (thorough: <= 4 rows for configurations with <= 1 non-default dimension) over the alphabet {credit, debit, zero} + per present column {debit with empty balance cell, debit with a wrong balance; credit/debit in the other currency; credit/debit rows carrying the secondary cells (decided by the account default); credit/debit rows carrying the secondary cells AND matched by the rule (decided by the rule, over the default if any); a matched debit without secondary cells when the rule disables conversion; an unmatched debit with cells when there is no default; credit/debit with a charge; other-currency conversion debit; conversion debit with a charge} x EVERY assignment of same-day/next-day to rows 2..n; rows are written newest first when row_order=new_to_old. states = cases, transitions = transactions compared with RefImport (tree + text), validated = cases in which every judged value had exactly one acceptable answer",
     assumptions: &[
         "okane's ledger parser is trusted to read the printed text back (C05/C15 decide that); report::process is trusted as the book-keeping referee of the end-to-end clause (C01/C02 decide that)",
         "DON'T-CARE: the counter-posting value of a row with a non-zero charge when no statement-supplied secondary amount exists (either 'opposite amount' or 'opposite amount net of the charge' is accepted); existence and rate of the charge posting; the sign of the balance assertion for a liability account; order of postings inside a transaction; payee/account of the counter-posting",
@@ -44,56 +45,58 @@ pub const DEF: CheckDef = CheckDef {
 // ------------------------------------------------------------------------------------------
 // Configuration space
 
+/// One conversion specification (`CommodityConversionSpec`): rate direction, amount mode, disabled flag.
 #[derive(Clone, Copy, PartialEq, Eq, Debug)]
-enum Conv {
-    None,
-    SecExtract,
-    SecCompute,
-    PriExtract,
-    PriCompute,
-    RuleSecCompute,
-    RulePriExtract,
-    Disabled,
+struct Spec {
+    /// true: the rate is the price of the primary (row) commodity; false: of the secondary one
+    pri: bool,
+    /// true: `amount: compute`; false: `amount: extract`
+    compute: bool,
+    disabled: bool,
 }
 
-impl Conv {
+impl Spec {
     fn name(self) -> &'static str {
-        match self {
-            Conv::None => "noconv",
-            Conv::SecExtract => "sec-extract",
-            Conv::SecCompute => "sec-compute",
-            Conv::PriExtract => "pri-extract",
-            Conv::PriCompute => "pri-compute",
-            Conv::RuleSecCompute => "rule-sec-compute",
-            Conv::RulePriExtract => "rule-pri-extract",
-            Conv::Disabled => "conv-disabled",
+        match (self.disabled, self.pri, self.compute) {
+            (true, _, _) => "disabled",
+            (false, false, false) => "sec-extract",
+            (false, false, true) => "sec-compute",
+            (false, true, false) => "pri-extract",
+            (false, true, true) => "pri-compute",
         }
     }
-    fn by_rule(self) -> bool {
-        matches!(self, Conv::RuleSecCompute | Conv::RulePriExtract)
-    }
-    /// true: the rate is the price of the primary (row) commodity; false: of the secondary one.
-    fn price_of_primary(self) -> bool {
-        matches!(self, Conv::PriExtract | Conv::PriCompute | Conv::RulePriExtract)
-    }
-    fn compute(self) -> bool {
-        matches!(self, Conv::SecCompute | Conv::PriCompute | Conv::RuleSecCompute)
-    }
-    /// does a conversion apply to a row whose conversion cells are filled?
-    fn applies(self) -> bool {
-        !matches!(self, Conv::None | Conv::Disabled)
+    fn yaml(self) -> Vec<String> {
+        let mut v = vec![];
+        if self.compute {
+            v.push("amount: compute".into());
+        }
+        if self.pri {
+            v.push("rate: price_of_primary".into());
+        }
+        if self.disabled {
+            v.push("disabled: true".into());
+        }
+        v
     }
 }
 
-const CONVS: [Conv; 8] = [Conv::None, Conv::SecExtract, Conv::SecCompute, Conv::PriExtract, Conv::PriCompute, Conv::RuleSecCompute, Conv::RulePriExtract, Conv::Disabled];
+const fn sp(pri: bool, compute: bool, disabled: bool) -> Spec {
+    Spec { pri, compute, disabled }
+}
+
+/// dimension 9: account-level default conversion. None = no secondary_commodity column, so the default can never
+/// apply; Some(sec-extract) = the three columns with NO `commodity.conversion` in the YAML (built-in default).
+const DEFAULTS: [Option<Spec>; 6] = [None, Some(sp(false, false, false)), Some(sp(false, true, false)), Some(sp(true, false, false)), Some(sp(true, true, false)), Some(sp(false, false, true))];
+/// dimension 12: `conversion` of the rewrite rule `payee: ^xfer` (None = no rule at all)
+const RULES: [Option<Spec>; 4] = [None, Some(sp(false, true, false)), Some(sp(true, false, false)), Some(sp(false, false, true))];
 
 /// number of alternatives per dimension (alternative 0 = default)
-const DIMS: [u8; 12] = [3, 3, 2, 3, 2, 2, 2, 2, 2, 8, 2, 2];
-const DIM_NAMES: [&str; 12] = ["layout", "delimiter", "skip", "date", "credit-debit", "commodity-col", "no-balance-col", "note-col", "charge-col", "conversion", "liability", "new-to-old"];
+const DIMS: [u8; 13] = [3, 3, 2, 3, 2, 2, 2, 2, 2, 6, 2, 2, 4];
+const DIM_NAMES: [&str; 13] = ["layout", "delimiter", "skip", "date", "credit-debit", "commodity-col", "no-balance-col", "note-col", "charge-col", "conversion", "liability", "new-to-old", "rule-conversion"];
 
 #[derive(Clone, Copy, Debug)]
 struct Cfg {
-    choice: [u8; 12],
+    choice: [u8; 13],
 }
 
 impl Cfg {
@@ -126,8 +129,39 @@ impl Cfg {
     fn fee_col(&self) -> bool {
         self.choice[8] == 1
     }
-    fn conv(&self) -> Conv {
-        CONVS[self.choice[9] as usize]
+    /// account-level default conversion (None: no secondary_commodity column)
+    fn default_conv(&self) -> Option<Spec> {
+        DEFAULTS[self.choice[9] as usize]
+    }
+    /// conversion carried by the rewrite rule `payee: ^xfer` (None: no rule)
+    fn rule_conv(&self) -> Option<Spec> {
+        RULES[self.choice[12] as usize]
+    }
+    /// rate and secondary_amount columns exist
+    fn conv_cols(&self) -> bool {
+        self.default_conv().is_some() || self.rule_conv().is_some()
+    }
+    /// the secondary_commodity column exists (otherwise an enabled rule names the commodity itself)
+    fn sec_ccy_col(&self) -> bool {
+        self.default_conv().is_some()
+    }
+    /// the specification in force for a row: the rule's if the row matches the rule (the default is "applied ... if not
+    /// specified in rewrite rules"), else the account default if the row carries all three secondary cells
+    fn effective(&self, matches_rule: bool, cells_filled: bool) -> Option<Spec> {
+        match (self.rule_conv(), matches_rule) {
+            (Some(r), true) => Some(r),
+            _ if cells_filled => self.default_conv(),
+            _ => None,
+        }
+    }
+    /// coarse name of the conversion configuration (classes, whole-file signatures)
+    fn conv_name(&self) -> String {
+        match (self.default_conv(), self.rule_conv()) {
+            (None, None) => "noconv".into(),
+            (Some(d), None) => format!("default-{}", d.name()),
+            (None, Some(r)) => format!("rule-{}", r.name()),
+            (Some(d), Some(r)) => format!("rule-{}-over-default-{}", if r.disabled { "off" } else { "on" }, if d.disabled { "off" } else { "on" }),
+        }
     }
     fn liability(&self) -> bool {
         self.choice[10] == 1
@@ -146,7 +180,7 @@ impl Cfg {
         self.choice.iter().filter(|c| **c != 0).count()
     }
     fn describe(&self) -> String {
-        let v: Vec<String> = self.choice.iter().enumerate().filter(|(_, c)| **c != 0).map(|(i, c)| if DIMS[i] == 2 { DIM_NAMES[i].to_string() } else if i == 9 { self.conv().name().to_string() } else { format!("{}={}", DIM_NAMES[i], c) }).collect();
+        let v: Vec<String> = self.choice.iter().enumerate().filter(|(_, c)| **c != 0).map(|(i, c)| if DIMS[i] == 2 { DIM_NAMES[i].to_string() } else if i == 9 { format!("default-conv={}", self.default_conv().unwrap().name()) } else if i == 12 { format!("rule-conv={}", self.rule_conv().unwrap().name()) } else { format!("{}={}", DIM_NAMES[i], c) }).collect();
         if v.is_empty() {
             "default".into()
         } else {
@@ -161,7 +195,7 @@ impl Cfg {
 
 /// All configurations with at most `d` non-default dimensions; fewer deviations first, then lexicographic.
 fn configs(d: usize) -> Vec<Cfg> {
-    fn rec(pos: usize, left: usize, cur: &mut [u8; 12], out: &mut Vec<Cfg>) {
+    fn rec(pos: usize, left: usize, cur: &mut [u8; 13], out: &mut Vec<Cfg>) {
         if pos == DIMS.len() {
             out.push(Cfg { choice: *cur });
             return;
@@ -177,7 +211,7 @@ fn configs(d: usize) -> Vec<Cfg> {
         }
     }
     let mut out = vec![];
-    rec(0, d, &mut [0u8; 12], &mut out);
+    rec(0, d, &mut [0u8; 13], &mut out);
     out.sort_by_key(|c| c.deviations()); // stable: lexicographic order kept inside a deviation class
     out
 }
@@ -212,10 +246,10 @@ fn columns(cfg: &Cfg) -> Vec<(&'static str, &'static str)> {
     if cfg.fee_col() {
         v.push(("charge", "Fee"));
     }
-    if cfg.conv() != Conv::None {
+    if cfg.conv_cols() {
         v.push(("rate", "Rate"));
         v.push(("secondary_amount", "Sec amount"));
-        if !cfg.conv().by_rule() {
+        if cfg.sec_ccy_col() {
             v.push(("secondary_commodity", "Sec ccy"));
         }
     }
@@ -230,24 +264,7 @@ fn config_yaml(cfg: &Cfg) -> String {
     if cfg.fee_col() {
         s.push_str("operator: Bank Fee Desk\n");
     }
-    let conv = cfg.conv();
-    let spec = |c: Conv| -> Vec<String> {
-        let mut v = vec![];
-        if c.by_rule() {
-            v.push(format!("commodity: {}", SECONDARY));
-        }
-        if c.compute() {
-            v.push("amount: compute".into());
-        }
-        if c.price_of_primary() {
-            v.push("rate: price_of_primary".into());
-        }
-        if c == Conv::Disabled {
-            v.push("disabled: true".into());
-        }
-        v
-    };
-    let default_spec = if conv.by_rule() { vec![] } else { spec(conv) };
+    let default_spec = cfg.default_conv().map(|d| d.yaml()).unwrap_or_default();
     if default_spec.is_empty() {
         s.push_str(&format!("commodity: {}\n", PRIMARY));
     } else {
@@ -286,9 +303,12 @@ fn config_yaml(cfg: &Cfg) -> String {
             }
         }
     }
-    if conv.by_rule() {
-        s.push_str("rewrite:\n  - matcher:\n      payee: \"^conv\"\n    account: Assets:Wire\n    conversion:\n");
-        for l in spec(conv) {
+    if let Some(r) = cfg.rule_conv() {
+        s.push_str("rewrite:\n  - matcher:\n      payee: \"^xfer\"\n    account: Assets:Wire\n    conversion:\n");
+        if !cfg.sec_ccy_col() && !r.disabled {
+            s.push_str(&format!("      commodity: {}\n", SECONDARY));
+        }
+        for l in r.yaml() {
             s.push_str(&format!("      {}\n", l));
         }
     }
@@ -315,8 +335,11 @@ struct Letter {
     kind: Kind,
     other: bool,
     bal: BalCell,
+    /// rate and secondary amount (and, if the column exists, secondary commodity) cells are filled
     conv: bool,
     fee: bool,
+    /// the payee matches the rewrite rule `^xfer`
+    rule: bool,
 }
 
 impl Letter {
@@ -332,6 +355,9 @@ impl Letter {
         }
         if self.conv {
             s.push_str("-conv");
+        }
+        if self.rule {
+            s.push_str("-xfer");
         }
         if self.fee {
             s.push_str("-fee");
@@ -358,9 +384,10 @@ impl Letter {
 }
 
 fn alphabet(cfg: &Cfg) -> Vec<Letter> {
-    let l = |kind| Letter { kind, other: false, bal: BalCell::Right, conv: false, fee: false };
+    let l = |kind| Letter { kind, other: false, bal: BalCell::Right, conv: false, fee: false, rule: false };
     let mut v = vec![l(Kind::Credit), l(Kind::Debit), l(Kind::Zero)];
-    let has_conv = cfg.conv() != Conv::None;
+    let has_default = cfg.default_conv().is_some();
+    let rule = cfg.rule_conv();
     if cfg.bal_col() {
         v.push(Letter { bal: BalCell::Empty, ..l(Kind::Debit) });
         v.push(Letter { bal: BalCell::Wrong, ..l(Kind::Debit) });
@@ -369,19 +396,34 @@ fn alphabet(cfg: &Cfg) -> Vec<Letter> {
         v.push(Letter { other: true, ..l(Kind::Credit) });
         v.push(Letter { other: true, ..l(Kind::Debit) });
     }
-    if has_conv {
+    if has_default {
+        // secondary cells filled, payee not matched by the rule: the account default decides
         v.push(Letter { conv: true, ..l(Kind::Credit) });
         v.push(Letter { conv: true, ..l(Kind::Debit) });
+    }
+    if let Some(r) = rule {
+        // secondary cells filled, payee matched by the rule: the rule's conversion decides (over the default, if any)
+        v.push(Letter { conv: true, rule: true, ..l(Kind::Credit) });
+        v.push(Letter { conv: true, rule: true, ..l(Kind::Debit) });
+        if !has_default {
+            // cells filled, not matched, and no default that could apply: a plain row
+            v.push(Letter { conv: true, ..l(Kind::Debit) });
+        }
+        if r.disabled {
+            // matched by a rule that disables conversion, secondary cells empty: a plain row.
+            // (With an ENABLED rule such a row has no rate: okane refuses the file; the statement is silent -> outside the alphabet.)
+            v.push(Letter { rule: true, ..l(Kind::Debit) });
+        }
     }
     if cfg.fee_col() {
         v.push(Letter { fee: true, ..l(Kind::Credit) });
         v.push(Letter { fee: true, ..l(Kind::Debit) });
     }
-    if cfg.ccy_col() && has_conv {
-        v.push(Letter { other: true, conv: true, ..l(Kind::Debit) });
+    if cfg.ccy_col() && cfg.conv_cols() {
+        v.push(Letter { other: true, conv: true, rule: !has_default, ..l(Kind::Debit) });
     }
-    if cfg.fee_col() && has_conv {
-        v.push(Letter { fee: true, conv: true, ..l(Kind::Debit) });
+    if cfg.fee_col() && cfg.conv_cols() {
+        v.push(Letter { fee: true, conv: true, rule: !has_default, ..l(Kind::Debit) });
     }
     v
 }
@@ -463,6 +505,9 @@ struct RefRow {
     assertion: AssertExp,
     /// every judged value had exactly one acceptable answer
     definite: bool,
+    /// a conversion applies to this row, and which specification decided (for signatures)
+    applies: bool,
+    conv_name: String,
 }
 
 struct RefStatement {
@@ -474,7 +519,6 @@ struct RefStatement {
 }
 
 fn ref_import(cfg: &Cfg, letters: &[Letter], same: &[bool]) -> RefStatement {
-    let conv = cfg.conv();
     let rate = Q::parse(RATE);
     let mut date = oka::date(2024, 3, 5);
     let mut running = QMap::new();
@@ -512,20 +556,38 @@ fn ref_import(cfg: &Cfg, letters: &[Letter], same: &[bool]) -> RefStatement {
         // the amount that actually changes hands with the counter-party: the account movement net of the charge
         let net = posting.add(fee.unwrap_or(Q::ZERO));
         let opposite_sign = |m: Q| if posting.signum() > 0 { m.abs().neg() } else { m.abs() };
-        let applies = l.conv && conv.applies();
-        let sec_ccy = if l.other && !conv.by_rule() { PRIMARY } else { SECONDARY }.to_string();
-        let convert = |x: Q| if conv.price_of_primary() { x.abs().mul(rate) } else { x.abs().div(rate) };
+        // DOC (config.rs): the account-level conversion is the "default conversion applied to all transaction, if not
+        // specified in rewrite rules"; `disabled` = "Disable all conversions". So a matching rule's specification
+        // replaces the default as a whole (an enabled rule over a disabled default converts, a disabled rule over an
+        // enabled default does not), and the default is considered for rows that carry rate + secondary amount +
+        // secondary commodity.
+        let eff = cfg.effective(l.rule, l.conv);
+        let applies = eff.map(|e| !e.disabled).unwrap_or(false);
+        if applies && !l.conv {
+            panic!("harness bug: conversion row without figures in the alphabet");
+        }
+        let eff_pri = eff.map(|e| e.pri).unwrap_or(false);
+        let eff_compute = eff.map(|e| e.compute).unwrap_or(false);
+        let conv_name = match (cfg.rule_conv(), l.rule, cfg.default_conv(), l.conv) {
+            (Some(r), true, Some(d), true) => format!("rule-{}-over-default-{}", r.name(), d.name()),
+            (Some(r), true, _, _) => format!("rule-{}", r.name()),
+            (_, _, Some(d), true) => format!("default-{}", d.name()),
+            (_, _, None, true) => "cells-without-default".to_string(),
+            _ => "no-conversion-cells".to_string(),
+        };
+        let sec_ccy = if l.other && cfg.sec_ccy_col() { PRIMARY } else { SECONDARY }.to_string();
+        let convert = |x: Q| if eff_pri { x.abs().mul(rate) } else { x.abs().div(rate) };
         let mut conv_cells = None;
         let (counter_values, counter_ccy, acct_rate, counter_rate);
         if l.conv {
             // exact figure of the statement; with amount=compute the statement shows a rounded figure that must be ignored
-            let exact = if conv == Conv::Disabled { net.abs().div(rate) } else { convert(net) };
-            let cell = if conv.compute() { exact.add(Q::parse("0.01")) } else { exact };
+            let exact = if applies { convert(net) } else { net.abs().div(rate) };
+            let cell = if applies && eff_compute { exact.add(Q::parse("0.01")) } else { exact };
             conv_cells = Some((RATE.to_string(), format!("{}", cell), sec_ccy.clone()));
         }
         if applies {
             counter_ccy = sec_ccy.clone();
-            if conv.compute() {
+            if eff_compute {
                 let mut v = vec![opposite_sign(convert(posting))];
                 if fee.is_some() {
                     v.push(opposite_sign(convert(net)));
@@ -535,7 +597,7 @@ fn ref_import(cfg: &Cfg, letters: &[Letter], same: &[bool]) -> RefStatement {
                 counter_values = vec![opposite_sign(convert(net))];
             }
             // the rate is attached to the commodity it prices
-            if conv.price_of_primary() {
+            if eff_pri {
                 acct_rate = Some((sec_ccy.clone(), rate));
                 counter_rate = None;
             } else {
@@ -573,7 +635,7 @@ fn ref_import(cfg: &Cfg, letters: &[Letter], same: &[bool]) -> RefStatement {
         };
         let definite = counter_values.len() == 1 && !matches!(assertion, AssertExp::Magnitude(..));
         rows.push(RefRow {
-            id: format!("{} r{}", if l.conv { "conv" } else { "shop" }, i + 1),
+            id: format!("{} r{}", if l.rule { "xfer" } else if l.conv { "conv" } else { "shop" }, i + 1),
             date,
             letter: *l,
             ccy,
@@ -588,6 +650,8 @@ fn ref_import(cfg: &Cfg, letters: &[Letter], same: &[bool]) -> RefStatement {
             counter_rate,
             assertion,
             definite,
+            applies,
+            conv_name,
         });
     }
     let mut fb = running.clone();
@@ -762,7 +826,7 @@ fn judge(via: &str, cfg: &Cfg, st: &RefStatement, got: &[ObsTxn]) -> Result<(), 
     }
     for (r, g) in st.rows.iter().zip(got) {
         let shape = format!("{}/{}", cfg.value_shape(), r.letter.name());
-        let convshape = format!("{}/{}", cfg.conv().name(), r.letter.name());
+        let convshape = format!("{}/{}", r.conv_name, r.letter.name());
         let ctx = |what: &str| format!("row '{}': {}; imported: {}", r.id, what, show_obs(g));
         let acct: Vec<&ObsPost> = g.posts.iter().filter(|p| p.account == cfg.account()).collect();
         let fees: Vec<&ObsPost> = g.posts.iter().filter(|p| p.account == FEE_ACCOUNT).collect();
@@ -959,6 +1023,9 @@ fn run_case(cfg: &Cfg, cfg_index: usize, entry: &icfg::ConfigEntry, files: &File
         if st.rows.iter().any(|r| r.letter.conv) {
             fl.push("conv-row");
         }
+        if st.rows.iter().any(|r| r.letter.rule) {
+            fl.push("xfer-row");
+        }
         if st.rows.iter().any(|r| r.letter.other) {
             fl.push("eur-row");
         }
@@ -974,7 +1041,7 @@ fn run_case(cfg: &Cfg, cfg_index: usize, entry: &icfg::ConfigEntry, files: &File
     // (1) tree
     let tree = match import_tree(entry, csv) {
         Ok(t) => t,
-        Err(e) => return Outcome::violation(format!("tree/import-failed/{}/{}", cfg.conv().name(), shape_all), format!("well-formed statement was not imported: {}", e)),
+        Err(e) => return Outcome::violation(format!("tree/import-failed/{}/{}", cfg.conv_name(), shape_all), format!("well-formed statement was not imported: {}", e)),
     };
     *transitions += tree.len() as u64;
     if let Err((sig, detail)) = judge("tree", cfg, st, &tree) {
@@ -983,7 +1050,7 @@ fn run_case(cfg: &Cfg, cfg_index: usize, entry: &icfg::ConfigEntry, files: &File
     // (2) printed text through the command
     let text = match import_text(files, cfg_index, csv) {
         Ok(t) => t,
-        Err(e) => return Outcome::violation(format!("text/import-failed/{}/{}", cfg.conv().name(), shape_all), format!("ImportCmd failed on a statement the library imported: {}", e)),
+        Err(e) => return Outcome::violation(format!("text/import-failed/{}/{}", cfg.conv_name(), shape_all), format!("ImportCmd failed on a statement the library imported: {}", e)),
     };
     let parsed = match parse_text(&text) {
         Ok(p) => p,
@@ -1003,10 +1070,8 @@ fn run_case(cfg: &Cfg, cfg_index: usize, entry: &icfg::ConfigEntry, files: &File
         let res = oka::process_text(&ledger);
         if !cfg.bal_col() {
             // statement has no running balance: the clause does not apply; executed for crashes only
-            match res {
-                Ok(_) => "e2e-na-no-balance-col(accepted)",
-                Err(_) => "e2e-na-no-balance-col(rejected)",
-            }
+            let _ = res;
+            "e2e-na-no-balance-col"
         } else if st.has_wrong_balance {
             match res {
                 Err(_) => "e2e-wrong-balance-rejected",
@@ -1036,7 +1101,7 @@ fn run_case(cfg: &Cfg, cfg_index: usize, entry: &icfg::ConfigEntry, files: &File
                             if fl.is_empty() {
                                 fl.push("plain");
                             }
-                            format!("{}-row/{}", fl.join("+"), if r.letter.conv && cfg.conv().applies() { cfg.conv().name() } else { "no-conversion" })
+                            format!("{}-row/{}", fl.join("+"), if r.applies { r.conv_name.as_str() } else { "no-conversion" })
                         }
                     };
                     return Outcome::violation(
@@ -1048,7 +1113,7 @@ fn run_case(cfg: &Cfg, cfg_index: usize, entry: &icfg::ConfigEntry, files: &File
                     let got = bal.get(cfg.account()).cloned().unwrap_or_default();
                     if got != st.final_balance {
                         return Outcome::violation(
-                            format!("e2e/final-balance/{}/{}", cfg.conv().name(), shape_all),
+                            format!("e2e/final-balance/{}/{}", cfg.conv_name(), shape_all),
                             format!("account ends at {} but the statement's last balance is {}\n{}", qmap_show(&got), qmap_show(&st.final_balance), ledger),
                         );
                     }
@@ -1057,7 +1122,7 @@ fn run_case(cfg: &Cfg, cfg_index: usize, entry: &icfg::ConfigEntry, files: &File
             }
         }
     };
-    let class = format!("{}/{}/{}{}", acct, cfg.conv().name(), e2e, if definite { "" } else { "/partly-dont-care" });
+    let class = format!("{}/{}/{}{}", acct, cfg.conv_name(), e2e, if definite { "" } else { "/partly-dont-care" });
     if definite {
         *validated += 1;
     }
